@@ -1,41 +1,11 @@
 (* Model side of the correspondence check. Usage: tt-runner <command>;
-   reads one s-expression per line on stdin, prints one per line. *)
+   reads one s-expression per line on stdin, prints one per line.
+   Commands are registered by the cmds_*.ml files linked before this one. *)
 open Sexp
-open Glue
-module M = Tt_model
-
-let commands : (string * (Sexp.t -> Sexp.t)) list ref = ref []
-let register name f = commands := (name, f) :: !commands
-
-(* ---- C20 ---- *)
-let () =
-  register "c20-topo" (fun s ->
-    (* ((adj (n (d ...)) ...) (req ...) (out ...)) *)
-    match list s with
-    | [adj; req; out] ->
-        let g = list_ (pair_ nat_ (list_ nat_)) adj in
-        let req = list_ nat_ req in
-        let out = list_ nat_ out in
-        let m = M.c20_topo g req in
-        List [of_opt (of_list of_nat) m; of_bool (M.c20_topo_ok g req out)]
-    | _ -> failwith "c20-topo: bad case");
-  register "c20-kahn" (fun s ->
-    (* ((order ...) (deps (f t) ...) res) with res = () for Err, ((..)) for Ok *)
-    match list s with
-    | [order; deps; res] ->
-        let order = list_ nat_ order in
-        let deps = list_ (pair_ nat_ nat_) deps in
-        let res = opt_ (list_ nat_) res in
-        let m = match M.c20_kahn order deps with
-          | M.Ok l -> List [Atom "ok"; of_list of_nat l]
-          | M.Cycle r -> List [Atom "cycle"; of_list of_nat r]
-          | M.OutOfFuel -> List [Atom "out-of-fuel"] in
-        List [m; of_bool (M.c20_kahn_ok order deps res)]
-    | _ -> failwith "c20-kahn: bad case")
 
 let () =
   let cmd = if Array.length Sys.argv > 1 then Sys.argv.(1) else "" in
-  let f = try List.assoc cmd !commands with Not_found ->
+  let f = try List.assoc cmd !Registry.commands with Not_found ->
     prerr_endline ("unknown command " ^ cmd); exit 2 in
   try
     while true do
@@ -44,8 +14,11 @@ let () =
         let r = try f (Sexp.parse line) with
           | Failure m -> List [Atom "runner-error"; Atom m]
           | Sexp.Parse_error m -> List [Atom "runner-error"; Atom ("parse: " ^ m)]
+          | Not_found -> List [Atom "runner-error"; Atom "Not_found"]
+          | Invalid_argument m -> List [Atom "runner-error"; Atom m]
           | Stack_overflow -> List [Atom "runner-error"; Atom "stack overflow"] in
-        print_endline (Sexp.to_string r)
+        print_endline (Sexp.to_string r);
+        flush stdout
       end
     done
   with End_of_file -> ()
